@@ -470,6 +470,7 @@ type funcContext struct {
 	gotosCount      int
 	unresolvedGotos map[int]*gotoLabelDesc
 	pendingBreaks   []*pendingBreak
+	constIndex      map[constKey]int // index of every constant in Proto.Constants
 }
 
 // pendingBreak is a break for which it is not known yet whether it has to
@@ -495,6 +496,7 @@ func newFuncContext(sourcename string, parent *funcContext) *funcContext {
 		labelPc:         map[int]int{},
 		gotosCount:      0,
 		unresolvedGotos: map[int]*gotoLabelDesc{},
+		constIndex:      map[constKey]int{},
 	}
 	fc.Blocks = []*codeBlock{fc.Block}
 	return fc
@@ -595,22 +597,27 @@ func (fc *funcContext) GetLabelPc(label int) int {
 	return fc.labelPc[label]
 }
 
+// constKey: two constants are the same constant when they are equal values, except that 0 and -0
+// (equal numbers) are different constants. A NaN is equal to nothing, not even as a map key.
+type constKey struct {
+	value LValue
+	neg   bool
+}
+
 func (fc *funcContext) ConstIndex(value LValue) int {
-	ctype := value.Type()
-	for i, lv := range fc.Proto.Constants {
-		if lv.Type() == ctype && lv == value {
-			// 0 and -0 compare equal but are different constants
-			if n, ok := lv.(LNumber); ok && math.Signbit(float64(n)) != math.Signbit(float64(value.(LNumber))) {
-				continue
-			}
-			return i
-		}
+	key := constKey{value: value}
+	if n, ok := value.(LNumber); ok {
+		key.neg = math.Signbit(float64(n))
+	}
+	if i, ok := fc.constIndex[key]; ok {
+		return i
 	}
 	fc.Proto.Constants = append(fc.Proto.Constants, value)
 	v := len(fc.Proto.Constants) - 1
 	if v > opMaxArgBx {
 		raiseCompileError(fc, fc.Proto.LineDefined, "too many constants")
 	}
+	fc.constIndex[key] = v
 	return v
 }
 func (fc *funcContext) BlockLocalVarsCount() int {
